@@ -652,9 +652,14 @@ class Visitor:
         Parameters:
             node: The node to visit.
         """
+        type_guarded = self.type_guarded
+        guard_body = False
         if isinstance(node.parent, (ast.Module, ast.ClassDef)):  # type: ignore[attr-defined]
             condition = safe_get_condition(node.test, parent=self.current, log_level=None)
-            if str(condition) in {"typing.TYPE_CHECKING", "TYPE_CHECKING"}:
-                self.type_guarded = True
-        self.generic_visit(node)
-        self.type_guarded = False
+            guard_body = str(condition) in {"typing.TYPE_CHECKING", "TYPE_CHECKING"}
+        for child in ast_children(node):
+            # Only the body of the condition is type-guarded, not its `else` branch,
+            # and nested conditions must not reset the flag of the enclosing one.
+            self.type_guarded = type_guarded or (guard_body and any(child is stmt for stmt in node.body))
+            self.visit(child)
+        self.type_guarded = type_guarded
